@@ -179,7 +179,7 @@ func TestC03Replay(t *testing.T) {
 
 func c03Configs() []CfgLit {
 	disc := []string{"https://a.b", "https://*.a.b", "https://b.a:*", "http://1.2.3.4", "http://[::1]", "ab://c", c01Scheme64 + "://" + c01Host253 + ".:*",
-		"http://a.b:8100", "ionic://a.b", "capacitor://a.b:81", "coap+tcp://*.a.b:8", "ab://c:18"}
+		"http://a.b:8100", "ionic://a.b", "capacitor://a.b:81", "coap+tcp://*.a.b:8", "ab://c:18", "https://*.c.d.", "https://e.f.", "https://*.g.h.:*"}
 	return []CfgLit{
 		{Origins: []string{"*"}, ResponseHeaders: []string{"X-R", "x-q"}, MaxAge: 30, Methods: []string{"PUT"}, RequestHeaders: []string{"X-A"}},
 		{Origins: disc, ResponseHeaders: []string{"X-R", "Content-Type", "x-q"}, MaxAge: -1, Methods: []string{"PUT"}, RequestHeaders: []string{"X-A"}, TolPSL: true},
@@ -206,13 +206,18 @@ func checkC03(c *vlib.Ctx) (string, string) {
 		return levelMC, rule
 	}
 	cfgs := c03Configs()
-	type built struct {
+	for _, l := range c03Configs() {
+		if ml := minimalFlags(l); ml.TolPSL != l.TolPSL || ml.TolInsecure != l.TolInsecure {
+			cfgs = append(cfgs, ml) // the same configuration without the DangerouslyTolerate* switches it does not need
+		}
+	}
+	type builtC03 struct {
 		lit CfgLit
 		h   [2]http.Handler
 	}
-	var bs []built
+	var bs []builtC03
 	for _, l := range cfgs {
-		var b built
+		var b builtC03
 		b.lit = l
 		for d := 0; d < 2; d++ {
 			m, err := cors.NewMiddleware(l.Config())
@@ -248,7 +253,7 @@ func checkC03(c *vlib.Ctx) (string, string) {
 	}
 	allowed := "https://a.b"
 	// (A) origin-focused
-	prefixes := []string{"http://a.b", "http://a.b:810", "https://a.b:810", "ionic://a.b", "capacitor://a.b:8", "capacitor://a.b", "coap+tcp://x.a.b:", "ab://c:1", "https://api-v2.example.co.uk", "https://xn--bcher-kva.example:4915", "app+v1.0://host-1.internal:1000", "chrome-extension://abcdefghijklmnopabcdefghijklmnop", "https://x.host-1.internal", "", "https://", "https://a.b", "https://x.a.b", "https://a.b:", "https://b.a:", "http://[::1]", "http://[", "http://1.2.3.4", "ab://c", "https://[a.b", "https://[x.a.b]"}
+	prefixes := []string{"https://x.c.d", "https://x.c.d.", "https://e.f", "https://x.g.h:", "https://x.g.h.:", "http://a.b", "http://a.b:810", "https://a.b:810", "ionic://a.b", "capacitor://a.b:8", "capacitor://a.b", "coap+tcp://x.a.b:", "ab://c:1", "https://api-v2.example.co.uk", "https://xn--bcher-kva.example:4915", "app+v1.0://host-1.internal:1000", "chrome-extension://abcdefghijklmnopabcdefghijklmnop", "https://x.host-1.internal", "", "https://", "https://a.b", "https://x.a.b", "https://a.b:", "https://b.a:", "http://[::1]", "http://[", "http://1.2.3.4", "ab://c", "https://[a.b", "https://[x.a.b]"}
 	sigma := []string{"a", "b", "x", ".", ":", "/", "[", "]", "0", "1", "8", "A", "*", "@", "-", " ", "\x00", "\xc3"}
 	n := vlib.Pick(c, 3, 4)
 	w := vlib.NewWords(sigma, n)
